@@ -4,6 +4,7 @@
 (* from what the REAL code answered) is a list of events                   *)
 (*   {"k":"ns", "exp":E, "prefix":P}    a prefix handed out / looked up    *)
 (*   {"k":"ctx","pairs":[[P,E],...]}    a context snapshot                 *)
+(*   {"k":"ctxall", same}               a snapshot taken at quiescence     *)
 (*   {"k":"id", "uri":U, "id":N}        an internal id handed out          *)
 (*   {"k":"rt", "uri":U, "back":B}      compact-then-expand round trip     *)
 (*   {"k":"reset"}                      a new, independent trace starts    *)
@@ -40,6 +41,13 @@ Step ==
             /\ Cardinality({ Event.pairs[i][1] : i \in 1..Len(Event.pairs) }) = Len(Event.pairs)
             /\ Cardinality({ Event.pairs[i][2] : i \in 1..Len(Event.pairs) }) = Len(Event.pairs)
             /\ ns' = ns \cup { <<Event.pairs[i][1], Event.pairs[i][2]>> : i \in 1..Len(Event.pairs) }
+            /\ UNCHANGED ids
+       [] Event.k = "ctxall" ->  \* a snapshot taken while nothing else runs: consistent AND complete
+            /\ \A i \in 1..Len(Event.pairs) : NsOk(Event.pairs[i][1], Event.pairs[i][2])
+            /\ Cardinality({ Event.pairs[i][1] : i \in 1..Len(Event.pairs) }) = Len(Event.pairs)
+            /\ Cardinality({ Event.pairs[i][2] : i \in 1..Len(Event.pairs) }) = Len(Event.pairs)
+            /\ ns \subseteq { <<Event.pairs[i][1], Event.pairs[i][2]>> : i \in 1..Len(Event.pairs) }
+            /\ ns' = { <<Event.pairs[i][1], Event.pairs[i][2]>> : i \in 1..Len(Event.pairs) }
             /\ UNCHANGED ids
        [] Event.k = "id" ->
             /\ IdOk(Event.uri, Event.id)
